@@ -96,6 +96,7 @@ type FuncContract struct {
 	Loops    map[string]*LoopContract
 	Asserts  []AnchorAssert
 	Props    []string
+	Refines  []string // "(pkg.Iface).Method [except label, label]": the interface contract this implementation is checked against
 	Fresh    bool // result is freshly allocated (externs)
 	File     string
 	Line     int
@@ -201,7 +202,7 @@ func ParseContractFile(path, pkgPath string) (*ContractFile, error) {
 }
 
 var keywords = []string{"import", "abstract", "spec", "axiom", "func", "extern", "interface", "global-invariant",
-	"requires", "ensures", "modifies", "pure", "inline", "trusted", "nopanic", "logged", "fresh", "loop", "invariant", "decreases", "assert", "assume", "props", "panics", "stmt", "calls", "maypanic", "owns"}
+	"requires", "ensures", "modifies", "pure", "inline", "trusted", "nopanic", "logged", "fresh", "loop", "invariant", "decreases", "assert", "assume", "props", "panics", "stmt", "calls", "maypanic", "owns", "refines"}
 
 func splitKeyword(t string) (string, string) {
 	for _, k := range keywords {
@@ -397,6 +398,8 @@ func (cf *ContractFile) addItem(kw, text string, line int, cur **FuncContract, c
 			fc.MayPanic = true
 		case "owns":
 			fc.Owns = append(fc.Owns, text)
+		case "refines":
+			fc.Refines = append(fc.Refines, text)
 		case "props":
 			fc.Props = append(fc.Props, strings.Fields(strings.ReplaceAll(text, ",", " "))...)
 		case "loop":
